@@ -1,4 +1,5 @@
 import CE.Cache.Proofs
+import CE.Cache.MultiProofs
 import CE.Io.Reader
 /-
   C16 — reused instances behave like fresh ones, including after failed calls.
@@ -52,5 +53,48 @@ example :
     let s := run P {} [0, 0, 0, 1, 1, 1]
     s.slot = .empty ∧ s.pcs 0 = .finished .failed ∧ s.pcs 1 = .finished .failed := by
   decide
+
+/-
+  Many entries (CE/Cache/Multi.lean): the cache as a set of types with the dependency structure of
+  Go types, recursive types included; one goroutine, any history of requests.
+-/
+open CE.Cache.Multi in
+/-- a reused session - starting from a new session's empty cache, after ANY history of successful and
+    failed requests for ANY types (recursive ones, unsupported ones, types built on unsupported ones) -
+    answers each request exactly as a fresh session would (it succeeds iff no unsupported kind is
+    reachable from the type) and never keeps a generator that stands on an unsupported kind -/
+theorem reused_session_answers_like_fresh (T : Types) (ts : List Nat) (F' : Nat → Prop) (oks : List Bool)
+    (h : History T (fun _ => False) ts F' oks) :
+    Sound T F' noneInFlight ∧ Answers T ts oks :=
+  history_like_fresh T h (empty_cache_sound T)
+
+open CE.Cache.Multi in
+/-- non-vacuity, and the defect fix 7c58b8f repaired: Link = struct{Next *Link; Ready chan} (type 0 with
+    components 1 = *Link and 2 = chan; 1 has component 0).  The failed request for Link leaves an empty
+    cache: the generator for *Link, completed while Link was in flight, is deleted with it. -/
+example :
+    let T : Types := { children := fun k => if k = 0 then [1, 2] else if k = 1 then [0] else [], bad := fun k => k = 2 }
+    ∃ F', History T (fun _ => False) [0] F' [false] ∧ ¬ F' 1 := by
+  intro T
+  -- inside Link's frame: *Link is generated (its component Link is in flight: a hit), then chan fails
+  have hptr : Gen T (fun _ => False) (fun k => noneInFlight k ∨ k = 0) 1 (fun k => (fun _ => False) k ∨ k = 1) true := by
+    refine .stored _ _ _ 1 (fun h => h) (by intro h; rcases h with h | h; exact h; cases h) (by simp [T]) ?_
+    show GenList T _ _ (T.children 1) _ true
+    have : T.children 1 = [0] := by simp [T]
+    rw [this]
+    exact .cons_ok _ _ _ _ 0 [] true (.hit _ _ 0 (.inr (.inl (.inr rfl)))) (.nil _ _)
+  have hchan : Gen T (fun k => (fun _ => False) k ∨ k = 1) (fun k => noneInFlight k ∨ k = 0) 2
+      (fun k => ((fun _ => False) k ∨ k = 1) ∧ ¬ Reach T k 2) false := by
+    refine .unsupported _ _ 2 (by intro h; rcases h with h | h; exact h; cases h) (by intro h; rcases h with h | h; exact h; cases h) (by simp [T])
+  have hlist : GenList T (fun _ => False) (fun k => noneInFlight k ∨ k = 0) (T.children 0)
+      (fun k => ((fun _ => False) k ∨ k = 1) ∧ ¬ Reach T k 2) false := by
+    have : T.children 0 = [1, 2] := by simp [T]
+    rw [this]
+    exact .cons_ok _ _ _ _ 1 [2] false hptr (.cons_fail _ _ _ 2 [] hchan)
+  refine ⟨_, .cons _ _ _ 0 [] false [] (.failed _ _ _ 0 (fun h => h) (fun h => h) (by simp [T]) hlist) (.nil _), ?_⟩
+  intro h
+  -- *Link reaches chan through Link, so it did not survive
+  apply h.1.2
+  exact .step 1 0 2 (by simp [T]) (.step 0 2 2 (by simp [T]) (.refl 2))
 
 end CE.Props.C16
